@@ -137,7 +137,7 @@ def model_exe():
 
 def cargo_build(bin_name, fs="fs_main", release=False, extra_features=()):
     """Build a harness binary against /repo's current working tree (path dependency)."""
-    tdir = os.path.join(BUILD, "cargo-" + fs)
+    tdir = os.path.join(BUILD, "cargo-" + "-".join([fs, *extra_features]))
     lock = os.path.join(HARNESS, "Cargo.lock")
     if not os.path.exists(lock):
         shutil.copy(os.path.join(REPO, "Cargo.lock"), lock)
